@@ -806,6 +806,123 @@ fn r12_pass(mut text: String, is_method: bool, cnt: &mut Counters) -> Result<Str
 }
 
 // ------------------------------------------------------------------------------------------
+// R14: reference patterns that bind one identifier (unsupported by Verus: "ref patterns"), opt-in via //@refpats
+//        closure parameter   `|&x| B`                      ==  `|x__r| { let x = *x__r; B }`
+//        let / let-else      `let P[&x] = E else { D };`   ==  `let P[x__r] = E else { D }; let x = *x__r;`
+//      A pattern `&x` matched against a `&T` binds `x` to a copy of the referent, which is what `*x__r` is. This is
+//      only meaningful for `T: Copy`; vx sees no types, but for a non-Copy `T` rustc rejects both the original and the
+//      rewritten form (E0507, cannot move out of a reference), so the generated file cannot compile in that case
+//      (exit 2, never a verdict). The one user, Lexer::lex_macro_var_expr (U06), has T = u8 (`Vec<u8>::first()`,
+//      `Vec<u8>::retain`). Only `&ident` without `mut`, `ref` or sub-pattern is handled; counted per occurrence.
+// ------------------------------------------------------------------------------------------
+struct R14Find {
+    found: Option<Vec<Edit>>,
+    hits: usize,
+}
+fn ref_ident_pats(p: &syn::Pat, out: &mut Vec<(Range<usize>, String)>) {
+    struct V<'o>(&'o mut Vec<(Range<usize>, String)>);
+    impl<'ast, 'o> Visit<'ast> for V<'o> {
+        fn visit_pat_reference(&mut self, r: &'ast syn::PatReference) {
+            if r.mutability.is_none() {
+                if let syn::Pat::Ident(pi) = &*r.pat {
+                    if pi.by_ref.is_none() && pi.mutability.is_none() && pi.subpat.is_none() {
+                        self.0.push((br(r), pi.ident.to_string()));
+                        return;
+                    }
+                }
+            }
+            visit::visit_pat_reference(self, r);
+        }
+    }
+    V(out).visit_pat(p);
+}
+impl<'ast> Visit<'ast> for R14Find {
+    fn visit_expr_closure(&mut self, c: &'ast syn::ExprClosure) {
+        visit::visit_expr_closure(self, c);
+        if self.found.is_some() {
+            return;
+        }
+        let mut hits = vec![];
+        for inp in &c.inputs {
+            match inp {
+                syn::Pat::Type(pt) => ref_ident_pats(&pt.pat, &mut hits),
+                p => ref_ident_pats(p, &mut hits),
+            }
+        }
+        if hits.is_empty() {
+            return;
+        }
+        let mut edits = vec![];
+        let mut lets = String::new();
+        for (r, id) in &hits {
+            edits.push(Edit { start: r.start, end: r.end, rep: format!("{id}__r") });
+            let _ = write!(lets, "let {id} = *{id}__r; ");
+        }
+        let b = br(&*c.body);
+        if let Expr::Block(bl) = &*c.body {
+            let open = br(&bl.block).start;
+            edits.push(Edit { start: open + 1, end: open + 1, rep: format!(" {lets}") });
+        } else {
+            edits.push(Edit { start: b.start, end: b.start, rep: format!("{{ {lets}") });
+            edits.push(Edit { start: b.end, end: b.end, rep: " }".into() });
+        }
+        self.hits = hits.len();
+        self.found = Some(edits);
+    }
+    fn visit_local(&mut self, l: &'ast syn::Local) {
+        visit::visit_local(self, l);
+        if self.found.is_some() {
+            return;
+        }
+        let mut hits = vec![];
+        ref_ident_pats(&l.pat, &mut hits);
+        if hits.is_empty() {
+            return;
+        }
+        let mut edits = vec![];
+        let mut lets = String::new();
+        for (r, id) in &hits {
+            edits.push(Edit { start: r.start, end: r.end, rep: format!("{id}__r") });
+            let _ = write!(lets, " let {id} = *{id}__r;");
+        }
+        let end = br(l).end;
+        edits.push(Edit { start: end, end, rep: lets });
+        self.hits = hits.len();
+        self.found = Some(edits);
+    }
+}
+
+fn r14_pass(mut text: String, is_method: bool, cnt: &mut Counters) -> Result<String, String> {
+    for _ in 0..100 {
+        let edits;
+        let hits;
+        {
+            let mut f = R14Find { found: None, hits: 0 };
+            if is_method {
+                let ast: syn::ImplItemFn = syn::parse_str(&text).map_err(|e| format!("reparse (R14): {e}"))?;
+                f.visit_impl_item_fn(&ast);
+            } else {
+                let ast: syn::ItemFn = syn::parse_str(&text).map_err(|e| format!("reparse (R14): {e}"))?;
+                f.visit_item_fn(&ast);
+            }
+            edits = f.found;
+            hits = f.hits;
+        }
+        match edits {
+            None => return Ok(text),
+            Some(e) => {
+                // counted per rewritten `&x` occurrence
+                for _ in 0..hits {
+                    cnt.bump("R14_ref_pattern");
+                }
+                text = apply_edits(&text, e);
+            }
+        }
+    }
+    Err("R14 did not converge".into())
+}
+
+// ------------------------------------------------------------------------------------------
 // R10: `mut self` receivers (unsupported by Verus): `fn f(mut self, ..) { B }` becomes
 //      `fn f(self, ..) { let mut self_ = self; B[self := self_] }` — a pure alpha-renaming
 // ------------------------------------------------------------------------------------------
@@ -909,6 +1026,7 @@ pub struct FnSpec {
     pub drops: Vec<(usize, String)>,
     pub open: Vec<String>,
     pub guards: bool,
+    pub refpats: bool,
 }
 
 fn check_ghost_only(what: &str, s: &str) -> Result<(), String> {
@@ -1165,6 +1283,7 @@ impl<'a> Ctx<'a> {
         // pass 2 (R4)
         let text2 = if fs.external { text1 } else { r4_pass(text1, is_method, &fs.r4result, &mut self.cnt)? };
         let text2 = if fs.guards && !fs.external { r12_pass(text2, is_method, &mut self.cnt)? } else { text2 };
+        let text2 = if fs.refpats && !fs.external { r14_pass(text2, is_method, &mut self.cnt)? } else { text2 };
         // pass 3 (R7)
         let (sig_ident, output, block, sig_range, fn_start): (Range<usize>, Option<Range<usize>>, Range<usize>, Range<usize>, usize);
         let tail_range: Option<Range<usize>>;
@@ -1542,6 +1661,7 @@ impl<'a> Gen<'a> {
                                         cur = Cur::Loop(fs.loops.len() - 1);
                                     }
                                     "guards" => fs.guards = true,
+                                    "refpats" => fs.refpats = true,
                                     "open" => {
                                         for m in ps[1..].iter().flat_map(|x| x.split(',')) {
                                             if !m.is_empty() {
